@@ -37,6 +37,18 @@ func (muxfaultSlice) Gen(r *rand.Rand, i int, tier string) ([]string, []string) 
 		}
 	}
 	var out []string
+	// fMP4 variants with an H264 track (no frame reordering): 1 case in 3 also gets an unparsable SPS
+	h264Track := ""
+	for i, l := range ops {
+		if strings.HasPrefix(l, "track codec=h264") && !strings.Contains(l, "bf=1") {
+			h264Track = strconv.Itoa(i - 1)
+		}
+	}
+	badSPS := h264Track != "" && !strings.Contains(ops[0], "v=ts") && r.Intn(3) == 0
+	badDone := false
+	if badSPS {
+		tags = append(tags, "bad-sps")
+	}
 	writes := 0
 	armed, left := false, 0
 	faults := 0
@@ -47,6 +59,14 @@ func (muxfaultSlice) Gen(r *rand.Rand, i int, tier string) ([]string, []string) 
 		}
 		if strings.HasPrefix(l, "w ") {
 			writes++
+			// an access unit that is only a truncated SPS: accepted (nothing to mux), but it replaces the track's
+			// parameters, forces a segment switch, and the init file of the next rotation cannot be generated
+			if badSPS && !badDone && writes > 8 && strings.HasPrefix(l, "w t="+h264Track+" ") && r.Intn(12) == 0 {
+				a := kvs(strings.Fields(l)[1:])
+				out = append(out, fmt.Sprintf("badsps t=%s pts=%d ntp=%s", h264Track, atoi64(a["pts"])-1, a["ntp"]))
+				badDone = true
+				faults++
+			}
 			if !armed && writes > 8 && faults < 3 && r.Intn(25) == 0 {
 				out = append(out, "sabotage")
 				armed, left = true, 1+r.Intn(12)
@@ -129,6 +149,17 @@ func (r *mfRunner) Step(line string) []string {
 		return []string{"-"}
 	case "unsabotage":
 		r.clear()
+		return []string{"-"}
+	}
+	if strings.HasPrefix(line, "badsps ") {
+		a := kvs(strings.Fields(line)[1:])
+		ti := int(atoi64(a["t"]))
+		if r.in.started && ti < len(r.in.tracks) {
+			func() {
+				defer func() { recover() }() //nolint:errcheck
+				r.in.m.WriteH264(r.in.tracks[ti].track, mxInZone(atoi64(a["ntp"])), atoi64(a["pts"]), [][]byte{{0x67, 0x42}}) //nolint:errcheck
+			}()
+		}
 		return []string{"-"}
 	}
 	if strings.HasPrefix(line, "snap") || strings.HasPrefix(line, "close") {
